@@ -3,6 +3,7 @@ import CssVerif.Lemmas.TokLex
 import CssVerif.Lemmas.TokDet
 import CssVerif.Lemmas.TokAppend
 import CssVerif.Lemmas.TokLex2Sep
+import CssVerif.Lemmas.TokStrItems
 import CssVerif.Lemmas.TokFull
 import CssVerif.Lemmas.TokLex2Full
 import CssVerif.Lemmas.TokPush
@@ -361,7 +362,7 @@ white space, `)`), UNICODE-RANGE (`U+`/`u+`, one to six hex digits or `?`), COMM
 `*/`) and CDC. `render2` joins the lexemes with single spaces; `expectedAll` lists (type, value) with an S token between
 neighbours; a COMMENT token is not yielded when comments are off. S (any run of white space) and INVALID (which a
 space does not end) have class theorems of their own.
-Still on the classification oracle only: lexemes with escapes, non-ASCII code points, signed / fractional numbers,
+Still on the classification oracle only: names with escapes or non-ASCII code points, signed / fractional numbers,
 identifiers that start with `-`, `u`, `U`, quoted URLs, UNICODE-RANGE intervals. -/
 
 /-- **T5.6 for all token classes** (plain lexemes): a text produced from grammar tokens of the classes NUMBER,
@@ -419,13 +420,35 @@ theorem comment_class (doC : Bool) (body rest : Cps) (hb : firstClose (body ++ [
 example : firstClose ([97, 32] ++ [42]) = none ∧ firstClose ([42, 42] ++ [42]) = none ∧
     firstClose ([47, 42, 32, 47] ++ [42]) = none ∧ firstClose ([42, 47, 120] ++ [42]) = some 0 := by decide
 
-/-- STRING with a body without backslash, whatever follows -/
-theorem string_class_partial (doC : Bool) (q : Nat) (hq : q = 34 ∨ q = 39) (body rest : Cps)
+/-- **STRING class, every body**: a quote, a body made of string items — `SItem` (Lemmas/TokStrItems.lean): an ordinary
+code point (not a line break, backslash or the delimiter; the other quote and non-ASCII code points are ordinary), a
+backslash with a code point that is not a line break (escaped quote, escaped backslash, the first digit of a hex
+escape, …), a backslash with a line break LF / FF / CR / CR LF (line continuation), a backslash with one to six hex
+digits and a line break — these are all the alternatives of the production's item — and the same quote is scanned as
+one STRING token covering exactly that, whatever follows. (Its value is `stringValue` of it: `string_values`.) -/
+theorem string_class (doC : Bool) (q : Nat) (hq : q = 34 ∨ q = 39) (its : List SItem) (h : ∀ i ∈ its, i.WF q)
+    (rest : Cps) :
+    scan false doC (q :: flat its ++ q :: rest) productions = .hit "STRING" ((flat its).length + 2) :=
+  scan_string_items doC q hq its h rest
+
+/-- the string body of the production matches greedily exactly the items (first success of the backtracking matcher) -/
+theorem string_body_greedy (q : Nat) (hq : q = 34 ∨ q = 39) (its : List SItem) (h : ∀ i ∈ its, i.WF q) (rest : Cps) :
+    (strBody q).first (flat its ++ q :: rest) = some (flat its).length :=
+  strBody_first_items q hq its h rest
+
+/-- the special case of a body without backslash -/
+theorem string_class_plain (doC : Bool) (q : Nat) (hq : q = 34 ∨ q = 39) (body rest : Cps)
     (hb : ∀ x ∈ body, ordinary q x = true) :
     scan false doC (q :: body ++ q :: rest) productions = .hit "STRING" (body.length + 2) :=
   scan_string_plain doC q hq body rest hb
-/- Full statement: the same for every body made of ordinary code points, escapes and line continuations
-   (`itemLens`); missing: the greedy-path induction over such bodies. -/
+
+/-- the hypotheses are satisfiable: `"a\"\41 b\<CR><LF>c\9<LF>'"` -/
+example : ∀ i ∈ [SItem.ord 97, .esc 34, .esc 52, .ord 49, .ord 32, .ord 98, .cont 3, .ord 99, .hexnl 57 [] 0, .ord 39],
+    i.WF 34 := by decide
+example : flat [SItem.ord 97, .esc 34, .esc 52, .ord 49, .cont 3, .hexnl 57 [] 0] =
+    [97, 92, 34, 92, 52, 49, 92, 13, 10, 92, 57, 10] := by decide
+example : (tokenize [34, 97, 92, 34, 92, 52, 49, 92, 13, 10, 92, 57, 10, 34] false true).tokens.map proj =
+    [("STRING", [34, 97, 92, 34, 0x41, 9, 34])] := by decide +kernel
 
 /-- INVALID: an unterminated string (body without backslash) up to the end of the text or a line break; STRING does
 not match there -/
